@@ -5,6 +5,7 @@ package backlog
 //vf:job C18 quick VF_C18_Offsets size=0..4
 //vf:job C18 quick VF_C18_ReadStep blen=0..3 file=0..1
 //vf:job C18 quick VF_C18_WriteStep blen=0..3 file=0..1
+//vf:job C18 quick VF_C18_WriteStep blen=8,9,12 file=0..1
 //vf:job C18 quick VF_C18_Sequential variant=0..4
 //vf:job C18 quick VF_C18_WrapNonPow2
 //vf:job C18 quick VF_C18_Proto readers=1..2 wn=1..2
